@@ -51,6 +51,12 @@ inductive Out where
   | panic
   deriving Repr, Inhabited
 
+/-- what the loop observes without the contents: per record (is it a GenBank record, `gts.Len`),
+and whether `Err()` is `nil`; `none` = panic (the answer of the harness op `scan.auto`) -/
+def Out.summary : Out → Option (List (Bool × Int) × Bool)
+  | .done rs _ c => some (rs.map fun r => (r.isGb, r.len), c)
+  | .panic => none
+
 /-- put a record in front of what the later scans return -/
 def Out.cons (r : Rec) : Out → Out
   | .done rs reg c => .done (r :: rs) reg c
